@@ -611,7 +611,6 @@ pub mod pager {
     use crate::DBConfig;
     use crate::io::pager::Pager;
     use crate::multithreading::frames::MemFrame;
-    use crate::storage::core::traits::Buffer;
     use crate::storage::page::OverflowPage;
     use std::io::Write;
     use std::path::Path;
